@@ -53,6 +53,17 @@ def _cloud(ctx, area, kind):
         n = 60 if ctx.quick else 300
         U = np.array([ctx.rng.choice([ctx.rng.uniform(-0.5, W + 0.5), ctx.rng.randrange(0, W + 1), ctx.rng.randrange(0, 2 * W + 1) / 2]) for _ in range(n)], float)
         V = np.array([ctx.rng.choice([ctx.rng.uniform(-0.5, H + 0.5), ctx.rng.randrange(0, H + 1), ctx.rng.randrange(0, 2 * H + 1) / 2]) for _ in range(n)], float)
+    elif kind == "crowd":
+        # many points per cell: every statistic is a sum over hundreds of points of one chunk
+        n = 1400
+        U = np.array([ctx.rng.uniform(0.02, W - 0.02) for _ in range(n)], float)
+        V = np.array([ctx.rng.uniform(0.02, H - 0.02) for _ in range(n)], float)
+    elif kind == "near_border_f32":
+        # points within half a metre of interior cell borders (single-precision coordinates are good to about 0.1 m there)
+        n = 300 if ctx.quick else 1500
+        m_u, m_v = 0.5 / abs(dx), 0.5 / abs(dy)
+        U = np.array([ctx.rng.randrange(0, W + 1) + ctx.rng.uniform(-m_u, m_u) if ctx.rng.random() < 0.7 else ctx.rng.uniform(0, W) for _ in range(n)], float)
+        V = np.array([ctx.rng.randrange(0, H + 1) + ctx.rng.uniform(-m_v, m_v) if ctx.rng.random() < 0.7 else ctx.rng.uniform(0, H) for _ in range(n)], float)
     else:   # "edge": tiny offsets around the outer edges
         e = [-1e-6, 0.0, 1e-6]
         U = np.array([a + d for a in (0, W) for d in e for _ in range(3)] + [W / 2.0] * 6, float)
@@ -61,6 +72,8 @@ def _cloud(ctx, area, kind):
     inv = pyproj.Transformer.from_crs(area.crs.geodetic_crs, area.crs, always_xy=True)
     lons, lats = inv.transform(xt, yt, direction="INVERSE")
     ok = np.isfinite(lons) & np.isfinite(lats) & (np.abs(lats) <= 90) & (np.abs(lons) <= 180)
+    if kind == "near_border_f32":
+        return lons[ok].astype(np.float32), lats[ok].astype(np.float32)
     return lons[ok], lats[ok]
 
 
@@ -125,7 +138,8 @@ def run_area(ctx, name, area):
     W, H = area.width, area.height
     size = W * H
     g = [Fraction(float(v)) for v in area.area_extent] + [W, H]
-    for ck in ("lattice", "dense", "edge"):
+    kinds = ("lattice", "dense", "edge") + (("near_border_f32",) if area.crs.is_projected else ()) + (("crowd",) if W * H == 1 else ())
+    for ck in kinds:
         lons, lats = _cloud(ctx, area, ck)
         n = lons.size
         with warnings.catch_warnings():
